@@ -371,7 +371,7 @@ func (e *testEnv) serveCase(rs reqSpec, plan *faultPlan, tag string) (*respView,
 		{"basicgroups", hxl(o.HtpasswdUserGroups)}, {"json", bs(o.ForceJSONErrors)}, {"skipbutton", bs(o.SkipProviderButton)},
 		{"refresh", i64s(int64(o.Cookie.Refresh))}, {"expire", i64s(int64(o.Cookie.Expire))}, {"groups", hxl(cfg.AllowedGroups)},
 		{"pkce", hx(cfg.PKCE)}, {"skipnonce", bs(cfg.SkipNonce)}, {"encstate", bs(o.EncodeState)}, {"csrfper", bs(o.Cookie.CSRFPerRequest)},
-		{"cookiename", hx(o.Cookie.Name)}, {"redis", bs(cfg.Redis)},
+		{"cookiename", hx(o.Cookie.Name)}, {"redis", bs(cfg.Redis)}, {"secret", hx(o.Cookie.Secret)},
 	}
 
 	// ---- env fields from the recording
@@ -611,7 +611,7 @@ func (e *testEnv) serveCase(rs reqSpec, plan *faultPlan, tag string) (*respView,
 		conTbl = append(conTbl, k+"="+bs(authOnlyAuthorize(req, s)))
 	}
 	envF := []kv{
-		{"now", i64s(now)}, {"load1", loadEnc(l1)}, {"lock", lock}, {"load2", loadEnc(l2)}, {"refresh", refresh},
+		{"now", i64s(now)}, {"loadseen", bs(l1 != nil && plan == nil)}, {"load1", loadEnc(l1)}, {"lock", lock}, {"load2", loadEnc(l2)}, {"refresh", refresh},
 		{"saveok", bs(lastOK("save"))}, {"clearok", bs(lastOK("clear"))}, {"tokens", lst(tokTbl)}, {"emails", lst(emTbl)},
 		{"redirect", hx(rdv)}, {"redirecterr", bs(rderr != nil)}, {"apprd", hx(appRd) + ":" + bs(e.proxy.redirectValidator.IsValidRedirect(appRd))},
 		{"stateparsed", hx(toParse)}, {"csrf", lst(csrfTbl)}, {"redeem", redeem}, {"enrichok", bs(enrichOK)}, {"fresh", fresh},
